@@ -478,6 +478,9 @@ IsConst(e) ==
       [] e.k = "un" -> IsConst(e.e)
       [] e.k = "bin" -> IsConst(e.l) /\ IsConst(e.r)
       [] e.k = "cast" -> IsConst(e.e)
+      [] e.k = "block" -> e.ss = <<>> /\ e.e # NIL /\ IsConst(e.e)      \* a block that is nothing but a constant value
+      [] e.k = "idx" -> IsConst(e.e) /\ IsConst(e.i)
+      [] e.k = "mem" -> IsConst(e.e)
       [] OTHER -> FALSE
 
 \* the type callers see: singleton parameters are bound by the callee, not passed
